@@ -19,7 +19,9 @@ from verus_unit import Infra
 from extract import AnchorLost
 import props as P
 
-EVID = os.path.join(VERIF, "evidence")
+# VERIF_EVIDENCE_DIR: self-tests that run the check on a deliberately broken tree (vk/run_seeds.py) write their evidence elsewhere,
+# so that /verif/evidence always describes a run on the real tree
+EVID = os.environ.get("VERIF_EVIDENCE_DIR") or os.path.join(VERIF, "evidence")
 REPLAYS = os.path.join(VERIF, "replays")
 
 
